@@ -6,3 +6,7 @@ if ! /venv/bin/python -c 'import hypothesis' 2>/dev/null; then
 fi
 /venv/bin/python -c 'import hypothesis; print("hypothesis", hypothesis.__version__)'
 mkdir -p evidence replays
+# atheris (coverage-guided fuzzing tier) next to the check code; optional: fuzz jobs are skipped when it is missing
+if [ ! -d .deps/atheris ]; then
+  PIP_NO_INDEX=1 /venv/bin/pip install -q --no-index --find-links /opt/veriftools/wheels --target .deps atheris || echo "atheris not installed: fuzz jobs will be skipped"
+fi
